@@ -289,6 +289,17 @@ def run_alloc(spec):
             def __repr__(self):
                 return f"<member {self.id}>"
 
+        g = execnet.Group()
+        atexit.unregister(g._cleanup_atexit)
+        five = [Member(c) for c in "abcde"]
+        for m in five:
+            g._register(m)
+        visited = []
+        for m in g:
+            visited.append(m.id)
+            g._unregister(m)
+        if visited != list("abcde") or len(g) != 0:
+            res.violation("iteration-skips-members-when-the-body-exits-them", f"loop over 5 members that removes each one visited {visited}, left {[m.id for m in g]}")
         for mode, arg in mruns:
             g = execnet.Group()
             atexit.unregister(g._cleanup_atexit)
@@ -541,6 +552,67 @@ def run_real(spec):
             res.violation("exited-gateway-still-member", victim.id)
         consistent("after exit")
         res.sample({"ids": [gw.id for gw in g]})
+        # an automatic id and the same explicit id requested at the same time, one of the two calls held for a moment at
+        # each line of makegateway(): one gets the id, the other is refused with ValueError, nothing is left behind
+        from execnet import multi
+        from vlib import imodel
+
+        pre = imodel.Preempt(core.REPO_SRC)
+        pre.install()
+        try:
+            lines = imodel.function_lines(multi.Group.makegateway)
+            res.info["makegateway_sweep_lines"] = len(lines)
+            for (f_, ln_) in lines:
+                nxt = "gw%d" % g._autoidcounter
+                children_before = worker_pids()
+                outs = []
+
+                def call(sp, delay):
+                    try:
+                        time.sleep(delay)
+                        outs.append(("ok", g.makegateway(sp)))
+                    except BaseException as e:  # noqa
+                        outs.append((type(e).__name__, str(e)[:100]))
+
+                pre.restart()
+                pre.set_sweep(f_, ln_, 1, stall=0.12)
+                ths = [threading.Thread(target=call, args=("popen", 0.0)), threading.Thread(target=call, args=(f"popen//id={nxt}", 0.02))]
+                for t in ths:
+                    t.start()
+                for t in ths:
+                    t.join(60)
+                pre.off()
+                if pre.fired:
+                    res.count("makegateway_sweep_fired")
+                res.count("overlapping_makegateway_pairs")
+                res.case(core.h64("real-overlap-sweep", ln_))
+                label = f"automatic id against explicit {nxt}, one call held at line {ln_} of makegateway()"
+                oks = [o[1] for o in outs if o[0] == "ok"]
+                bad = [o for o in outs if o[0] not in ("ok", "ValueError")]
+                if bad:
+                    res.violation("overlapping-makegateway-wrong-exception:" + bad[0][0], f"{label}: {outs!r}")
+                if len({gw.id for gw in oks}) != len(oks):
+                    res.violation("live-gateways-share-id", f"{label}: both calls returned a gateway with id {oks[0].id}")
+                consistent(label)
+                time.sleep(0.3)
+                extra = worker_pids() - children_before
+                if len(extra) != len(oks):
+                    res.violation("failed-makegateway-left-process:overlapping", f"{label}: {len(oks)} gateways were handed out but {len(extra)} new child processes are alive: {outs!r}")
+                for gw in oks:
+                    gw.exit()
+        finally:
+            pre.uninstall()
+        # the documented way to retire every member: each one is visited although the loop body removes it from the group
+        for extra_id in ("it1", "it2", "it3"):
+            g.makegateway(f"popen//id={extra_id}")
+        members = list(g)
+        visited = []
+        for gw in g:
+            visited.append(gw.id)
+            gw.exit()
+        res.count("iterate_and_exit_members", len(members))
+        if visited != [gw.id for gw in members] or len(g) != 0:
+            res.violation("iteration-skips-members-when-the-body-exits-them", f"members {[gw.id for gw in members]}, loop visited {visited}, left in the group {[gw.id for gw in g]}")
     finally:
         g.terminate(2.0)
     if len(g) != 0:
